@@ -222,8 +222,8 @@ def run(ctx):
     # --- perturbations (malformed stream): must raise ---------------------------------------------
     for i in range(n_pert):
         z = base(L=rng.randint(4, 60))
-        kind = rng.choice(['time_shift', 'time_shift_masked', 'order', 'rate', 'class', 'chan_bw', 'freq_shift', 'offaxis_start', 'offaxis_labels', 'empty', 'freq_on_signal'])
-        if kind in ('chan_bw', 'freq_shift', 'offaxis_labels') and not isinstance(z, pb.RadioSignal):
+        kind = rng.choice(['time_shift', 'time_shift_masked', 'offaxis_start_masked', 'offaxis_start_masked', 'order', 'rate', 'class', 'chan_bw', 'freq_shift', 'offaxis_start', 'offaxis_labels', 'empty', 'freq_on_signal'])
+        if kind in ('chan_bw', 'freq_shift', 'offaxis_labels', 'offaxis_start_masked') and not isinstance(z, pb.RadioSignal):
             z = base(cls=rng.choice(X.RADIO), L=rng.randint(4, 60))
         if kind == 'chan_bw' and rng.random() < 0.5 and not isinstance(z, pb.BasebandSignal):
             z = z[:, :1]          # a single channel: its label does not depend on chan_bw, only the chan_bw test can refuse
@@ -303,6 +303,23 @@ def run(ctx):
             d = rng.choice([1, -1, 2, -2, 1.0])
             ps[j] = type(z).like(ps[j], center_freq=ps[j].center_freq + d * z.chan_bw)
             inp['channels'] = d
+            emit(kind, inp, ps, rng.choice([1, 'freq']), 1, z, None, must_raise=True)
+            continue
+        if kind == 'offaxis_start_masked':
+            # along the frequency axis: three or more pieces, some without a start time (at least two with one), ONE timed piece moved:
+            # every pair of timed pieces must agree, whatever lies between them
+            if not isinstance(z, pb.RadioSignal) or z.nchan < 3:
+                continue
+            k = rng.randint(3, min(5, z.nchan))
+            cuts = sorted(rng.sample(range(1, z.nchan), k - 1))
+            bounds = [0] + cuts + [z.nchan]
+            ps = [z[:, a:b] for a, b in zip(bounds[:-1], bounds[1:])]
+            timed = sorted(rng.sample(range(k), rng.randint(2, k)))
+            j = rng.choice(timed)
+            d = rng.choice([1, -1, 5])
+            ps = [p if i in timed else type(p).like(p, start_time=None) for i, p in enumerate(ps)]
+            ps[j] = type(z).like(ps[j], start_time=ps[j].start_time + d * z.dt)
+            inp.update(samples=d, timed=timed, moved=j)
             emit(kind, inp, ps, rng.choice([1, 'freq']), 1, z, None, must_raise=True)
             continue
         if kind == 'offaxis_start':
